@@ -339,6 +339,25 @@ class C14(MsgProp):
             yield ("DEC " + hx(mk_frame(bytes([b]))), "empty", False)
         for n in g.numbers:
             yield ("ENC " + g.message(r, n, "valid"), "typed-reverse", True)
+        # well-formed bodies under another number: frames the real encoder produces for type A with the
+        # 12-bit number replaced by B (all supported B for a few A, and each A under its neighbours)
+        encs = ["ENC " + g.message(r, n, "safe", lens=r.choice([1, 2, 3])) for n in g.numbers]
+        ans = ctx.run_all([ctx.exe_release], encs, 20.0)
+        bodies = {}
+        for n, a in zip(g.numbers, ans):
+            if a and " " not in a and all(ch in "0123456789abcdef" for ch in a):
+                bodies[n] = bytes.fromhex(a)[3:-3]
+        nums = sorted(bodies)
+        for i, a in enumerate(nums):
+            others = set(nums[max(0, i - 3):i + 4]) | set(r.sample(nums, 6)) | {0, 4095, (a + 1) % 4096, a ^ 1, a ^ 0x800}
+            if a in (1007, 1008, 1033, 1005, 1006, 1001, 1004, 1077, 1057, 1230, 1029) or ctx.tier == "thorough" and i % 4 == 0:
+                others |= set(nums)
+            for b in sorted(others):
+                if b != a:
+                    p = bytearray(bodies[a])
+                    p[0] = b >> 4
+                    p[1] = ((b & 15) << 4) | (p[1] & 15)
+                    yield ("DEC " + hx(mk_frame(bytes(p))), "relabelled", True)
 
     def run(self, ctx):
         extra = super().run(ctx)
@@ -397,7 +416,7 @@ class C12(MsgProp):
         # length ladder: a frame followed by one whose body is 1..3 bytes longer or shorter, so that the
         # second frame's last body byte / checksum lands on bytes the first one left behind
         ladder = []
-        for n in (1007, 1008, 1033, 1029, 1001, 1009, 1005, 1006, 1013, 1230):
+        for n in (1007, 1008, 1033, 1029, 1001, 1002, 1003, 1004, 1009, 1010, 1011, 1012, 1005, 1006, 1013, 1230):
             if n not in g.numbers:
                 continue
             for k in range(0, 12):
@@ -432,6 +451,14 @@ class C12(MsgProp):
                                 if pairs % 7 == 0:
                                     yield ("BUILDSEQ " + a + " ; " + r.choice(early_fail + late_fail) + " ; " + b, "ladder-with-failed-build", True)
                                     yield ("BUILDSEQ " + r.choice(late_fail) + " ; " + b, "failed-then-target", True)
+        # a build refused at a bit offset inside a byte, then a target ending in that very byte: every refused
+        # build x one or two targets of every frame length in the ladder
+        fails = failing_builds(g, r, 3 if getattr(ctx, "registered_tier", "quick") == "quick" else 6)
+        one_per_len = [(L, by_len[L][:2]) for L in lens_sorted if L <= 140]
+        for f in fails:
+            for L, ms in one_per_len:
+                for m in ms:
+                    yield ("BUILDSEQ " + f + " ; " + m, "refused-inside-a-byte-then-target", True)
         # a build that leaves ones behind, then a refused build (each kind of error), then an unaligned target
         targets = [m for L, m in sized][:: max(1, len(sized) // (40 if ctx.tier == "quick" else 400))]
         for t in targets:
@@ -447,6 +474,44 @@ class C12(MsgProp):
                 seq.append(r.choice(big) if c < 0.2 else r.choice(early_fail) if c < 0.3 else
                            r.choice(late_fail) if c < 0.4 else r.choice(special) if c < 0.45 else r.choice(pool))
             yield ("BUILDSEQ " + " ; ".join(seq), "sequence", k >= 2)
+
+
+FAILABLE = {"df040": [-8, 127, 25], "df419": [-8, 127], "df134": [0, 1991], "df547": [0, 44243]}
+
+
+def failing_builds(g, r, per=6):
+    """messages the encoder refuses part-way, at many different bit offsets: an integer field with a bias
+    (GLONASS frequency channel in 1009-1012 / 1020 / MSM5,7; 1020 year; 1301 epoch) is given a value below its
+    range in the j-th place where it occurs"""
+    out = []
+    orig = g.df_value
+
+    def marked(r_, d, mode):
+        t = orig(r_, d, mode)
+        if d["id"] in FAILABLE:
+            return [x if not x.startswith("i") else "@%s@%s" % (d["id"], x) for x in t]
+        return t
+
+    g.df_value = marked
+    try:
+        plans = [(n, k) for n in (1009, 1010, 1011, 1012) for k in range(1, 14)] + [(1020, None), (1301, None)] + \
+                [(n, None) for n in (1085, 1087) for _ in range(8)]
+        for n, k in plans:
+            if n not in g.numbers:
+                continue
+            for _ in range(per if k is not None else 2):
+                toks = g.message(r, n, "safe", lens=k).split(" ")
+                pos = [i for i, t in enumerate(toks) if t.startswith("@")]
+                if not pos:
+                    continue
+                j = r.choice(pos[-2:] + [r.choice(pos)])
+                for i in pos:
+                    fid, val = toks[i][1:].split("@")
+                    toks[i] = ("i%d" % r.choice(FAILABLE[fid])) if i == j else val
+                out.append(" ".join(toks))
+    finally:
+        g.df_value = orig
+    return out
 
 
 def patch_first_int(toks, idx, value):
